@@ -18,9 +18,10 @@ def matches(entry, v):
         return False
     if entry.get("op") != v.get("op"):
         return False
-    ek = entry.get("kind")
     vk = v.get("kind", "")
-    if ek != vk and not (ek.endswith("*") and vk.startswith(ek[:-1])):
+    # 'kind' of an entry may list alternatives separated by '|' (e.g. a null dereference shows up as asan:SEGV or
+    # ubsan depending on which access comes first); a trailing '*' matches a prefix
+    if not any(ek == vk or (ek.endswith("*") and vk.startswith(ek[:-1])) for ek in entry.get("kind", "").split("|")):
         return False
     tags = set(v.get("tags", []))
     if not all(t in tags for t in entry.get("when", [])):
